@@ -238,8 +238,11 @@ fn run_case(size: usize, blocks: &[BlockIn], stats: &mut Stats, extra: &str) {
             o.table.2,
             tags.join(",")
         ));
-        if o.verdict == "Panic" {
-            break; // the decoder may be in any state after an unwinding panic
+        if o.verdict != "Ok" {
+            // Any error of a complete block is a connection error in h2 (GOAWAY): the decoder is
+            // never used again.  (Its Huffman scratch buffer keeps the partial output of a failed
+            // string, which would leak into the next string if it were.)
+            break;
         }
     }
     out.push_str("],\"huff\":[");
@@ -657,7 +660,9 @@ fn gen_history(rng: &mut Rng, mode: &str) -> (usize, Vec<BlockIn>) {
     // a probe decoder run alongside tells the generator what the dynamic table really holds
     let mut probe = Decoder::new(size);
     let mut probe_dead = false;
-    for _ in 0..nblocks {
+    // in mutate mode the history is valid up to a random block, invalid choices start there
+    let first_bad = rng.below(nblocks);
+    for bi in 0..nblocks {
         let (pentries, _psize, pmax) = if probe_dead { (Vec::new(), 0, 0) } else { probe.verif_table() };
         let dyn_sizes: Vec<usize> = pentries.iter().map(|e| 32 + e.0.len() + e.1.len()).collect();
         let dyn_names: Vec<Vec<u8>> = pentries.into_iter().map(|e| e.0).collect();
@@ -678,7 +683,7 @@ fn gen_history(rng: &mut Rng, mode: &str) -> (usize, Vec<BlockIn>) {
         }
         let mut tags: Vec<&'static str> = Vec::new();
         let bytes: Vec<u8>;
-        if mode == "random" {
+        if mode == "random" && bi >= first_bad {
             let n = rng.range(0, 40) as usize;
             let mut b = Vec::with_capacity(n);
             for _ in 0..n {
@@ -692,11 +697,11 @@ fn gen_history(rng: &mut Rng, mode: &str) -> (usize, Vec<BlockIn>) {
             tags.push("random-bytes");
             bytes = b;
         } else {
-            let bad = if mode == "mutate" { 120 } else { 0 };
+            let bad = if mode == "mutate" && bi >= first_bad { 150 } else { 0 };
             let mut g = Gen { rng, bad, dyn_names, dyn_sizes, tbl_max: pmax, limit, tags: Vec::new() };
             let mut b = g.block();
             tags = g.tags;
-            if mode == "mutate" && rng.chance(1, 3) {
+            if mode == "mutate" && bi >= first_bad && rng.chance(1, 3) {
                 mutate(rng, &mut b, &mut tags);
             }
             bytes = b;
@@ -708,11 +713,14 @@ fn gen_history(rng: &mut Rng, mode: &str) -> (usize, Vec<BlockIn>) {
         let b = BlockIn { queued, frags, tags };
         if !probe_dead {
             let o = run_block(&mut probe, &b);
-            if o.verdict == "Panic" {
+            if o.verdict != "Ok" {
                 probe_dead = true;
             }
         }
         blocks.push(b);
+        if probe_dead {
+            break;
+        }
     }
     (size, blocks)
 }
@@ -758,6 +766,9 @@ fn run_fixtures(rng: &mut Rng, stats: &mut Stats, limit_stories: u64) {
             None => continue,
         };
         let mut cs: Vec<(u64, Vec<u8>, Option<usize>, Vec<(Vec<u8>, Vec<u8>)>)> = Vec::new();
+        if cases.iter().any(|c| c.get("wire").and_then(|x| x.as_str()).is_none()) {
+            continue; // raw-data stories: headers only, nothing to decode
+        }
         for c in cases {
             let seq = c.get("seqno").and_then(|x| x.as_u64()).unwrap_or(0);
             let wire = unhex(c.get("wire").and_then(|x| x.as_str()).unwrap_or(""));
